@@ -362,6 +362,8 @@ META = (META[0] + " " + META_EXTRA, META[1])
 
 def run(chk, tier):
     db = D.load("checks")
+    from ..rules import params as _PR
+    _PR.check(chk, db, ['_bitset/', '_bit/'], floor=40)
     taint_rule(chk, db)
     deleg_rule(chk, db)
     guard_rule(chk, db)
